@@ -320,9 +320,18 @@ def _worker_run(chunk):
         except RecursionError:
             r = PartialResult({"dis": [{"clause": "HarnessRecursionError", "detail": traceback.format_exc()[-600:]}],
                                "nontrivial": True})
-        except Exception:
+        except Exception as exc:
             disarm()
-            raise MachineryError("harness exception on case %r:\n%s" % (case, traceback.format_exc()))
+            # an exception raised INSIDE the library that a harness did not expect at that call is what the library did on this
+            # case (on the pinned tree no case raises there): a disagreement.  Anything raised by harness code is machinery.
+            tb = exc.__traceback__
+            while tb.tb_next is not None:
+                tb = tb.tb_next
+            if os.path.basename(tb.tb_frame.f_code.co_filename) == "svgelements.py":
+                r = PartialResult({"dis": [{"clause": "Raises", "detail": "the library raised %s: %s  [%s]" % (
+                    type(exc).__name__, str(exc)[:80], traceback.format_exc()[-400:].replace("\n", " | "))}], "nontrivial": True})
+            else:
+                raise MachineryError("harness exception on case %r:\n%s" % (case, traceback.format_exc()))
         finally:
             disarm()
         if any(d.get("clause") in ("Hangs", "Timeout") for d in r.get("dis", [])):
